@@ -87,7 +87,7 @@ func (w *World) declareForged(p int, e *entry.Entry) string {
 	key = w.peerOfPubKey(e.GetKey())
 	if e.GetClock() != nil {
 		if q := w.peerOfPubKey(e.GetClock().GetID()); q >= 0 {
-			cidRank = w.peers[q].rank
+			cidRank = w.rankOf(q)
 		}
 		t = e.GetClock().GetTime()
 	}
